@@ -130,10 +130,11 @@ class Summaries:
 
 
 class LengthDomain:
-    def __init__(self, fn, prog=None, summaries=None):
+    def __init__(self, fn, prog=None, summaries=None, entry=None):
         self.fn = fn
         self.prog = prog
         self.summ = summaries
+        self.entry = dict(entry or {})      # facts holding on entry (e.g. established by an upstream `.filter(pred)`)
         self.defs = defaultdict(list)
         for bb, b in enumerate(fn.blocks):
             if b.get("cleanup"):
@@ -458,7 +459,7 @@ class LengthDomain:
     def _solve(self):
         fn = self.fn
         n = len(fn.blocks)
-        self.in_state = {0: {}}
+        self.in_state = {0: dict(self.entry)}
         work = deque([0])
         iters = 0
         while work and iters < 20000:
@@ -504,3 +505,79 @@ class LengthDomain:
         finally:
             fn.blocks[bb] = saved
         return max(st.get(key, 0), self.static_len(key))
+
+
+# ----------------------------------------------------------------------------------------------------------------
+# iterator idiom: `.filter(|x| len(x.P) >= c).map(|x| .. x.P[k] ..)` — the consumer closure only ever sees elements for
+# which the predicate closure returned true.
+CONSUMERS = ("Iterator::map", "Iterator::for_each", "Iterator::filter_map", "Iterator::flat_map", "Iterator::any",
+             "Iterator::all", "Iterator::find", "Iterator::fold", "Iterator::position", "Iterator::find_map", "Iterator::filter")
+
+
+def filter_entry_facts(prog, closure_fn, summaries=None):
+    """Facts on the element parameter of `closure_fn` established by a directly preceding `.filter(pred)` in the function
+    that creates it.  Returns {key: min_len} in closure_fn's own key space (element parameter = local 2)."""
+    creator = prog.fn(closure_fn.parent) if closure_fn.parent else None
+    if creator is None or closure_fn.kind != "Closure":
+        return {}
+    out = {}
+
+    def closure_arg(t):
+        for a in t["args"]:
+            l = op_local(a)
+            if l is None:
+                c = (a.get("c") or {}) if a.get("k") == "const" else {}
+                if c.get("closure"):
+                    yield c["closure"]
+                continue
+            for _, _, s in creator.stmts():
+                if s["pl"]["l"] == l and not s["pl"]["p"] and s["rv"]["k"] == "agg" and s["rv"].get("agg") == "closure":
+                    yield s["rv"]["closure"]
+    for bb, t in creator.calls():
+        d = t.get("callee") or ""
+        if not any(d.endswith(x) for x in CONSUMERS):
+            continue
+        if closure_fn.path not in set(closure_arg(t)):
+            continue
+        recv = op_local(t["args"][0]) if t["args"] else None
+        if recv is None:
+            continue
+        # the receiver must be the result of Iterator::filter (through moves only)
+        seen = set()
+        cur = recv
+        filt = None
+        for _ in range(6):
+            if cur in seen:
+                break
+            seen.add(cur)
+            defs_ = [(b2, t2) for b2, t2 in creator.calls() if t2["dest"]["l"] == cur and not t2["dest"]["p"]]
+            if defs_:
+                t2 = defs_[0][1]
+                if (t2.get("callee") or "").endswith("Iterator::filter"):
+                    filt = t2
+                break
+            nxt = None
+            for _, _, s in creator.stmts():
+                if s["pl"]["l"] == cur and not s["pl"]["p"] and s["rv"]["k"] == "use" and op_local(s["rv"]["op"]) is not None \
+                        and not op_place(s["rv"]["op"])["p"]:
+                    nxt = op_local(s["rv"]["op"])
+            if nxt is None:
+                break
+            cur = nxt
+        if filt is None:
+            continue
+        for pa in closure_arg(filt):
+            A = prog.fn(pa)
+            if A is None:
+                continue
+            ld = LengthDomain(A, prog, summaries)
+            m = ld.bool_meaning(0)
+            if not m or m[0] is None:
+                continue
+            (root, path), op, c = m
+            if root != 2:
+                continue
+            n = LengthDomain.implied_min(op, c, True)
+            if n and n > 0:
+                out[(2, tuple(path))] = max(out.get((2, tuple(path)), 0), n)
+    return out
